@@ -410,4 +410,64 @@ theorem toNoSwitch_terminal {α} (mode : Due) (cold1 : Bool) (msgs : TL α) (due
       | error e => simp [toPrefix, hb, conform, hasTerminal, isNext]
       | completed => simp [toPrefix, hb, conform, hasTerminal, isNext]
 
+/-! ### timeout: the deadline rule in terms of gaps -/
+
+/-- the arrival time of the last notification of `pre` (`prev` if there is none) -/
+def lastTime {α} : Nat → TL α → Nat
+  | prev, [] => prev
+  | _, (t, _) :: r => lastTime t r
+
+/-- every notification arrives at most `d` after the previous one (after `prev` for the first) -/
+def GapsOk {α} (d : Nat) : Nat → TL α → Prop
+  | _, [] => True
+  | prev, (t, _) :: r => t ≤ prev + d ∧ GapsOk d t r
+
+theorem to_switch_at_gap {α} (d : Nat) (pre rest : TL α) (prev : Nat) (first : Bool)
+    (hn : ∀ m ∈ pre, isNext m.2 = true) (hg : GapsOk d prev pre)
+    (hr : rest = [] ∨ ∃ t n r, rest = (t, n) :: r ∧ lastTime prev pre + d < t) :
+    toSwitchAt (.rel d) false (prev + d) (prev + d) first (pre ++ rest) = some (lastTime prev pre + d) := by
+  induction pre generalizing prev first with
+  | nil =>
+    rcases hr with rfl | ⟨t, n, r, rfl, hlt⟩
+    · simp [toSwitchAt, lastTime]
+    · simp only [lastTime] at hlt
+      simp [toSwitchAt, lastTime, timerBefore, hlt]
+  | cons a pre ih =>
+    obtain ⟨t, n⟩ := a
+    have hnext := hn (t, n) (List.mem_cons_self ..)
+    cases n with
+    | next v =>
+      have hle : ¬ (prev + d < t) := by have := hg.1; omega
+      have := ih t false (fun m hm => hn m (List.mem_cons_of_mem _ hm)) hg.2 (by simpa [lastTime] using hr)
+      simp only [List.cons_append, toSwitchAt, Bool.and_false, timerBefore, Bool.false_eq_true, if_false, hle,
+        decide_false, Due.at, lastTime]
+      rw [Nat.max_eq_left (Nat.le_add_right t d)]
+      exact this
+    | error e => simp [isNext] at hnext
+    | completed => simp [isNext] at hnext
+
+theorem to_no_switch_small_gaps {α} (d : Nat) (pre post : TL α) (T : Nat) (n : Notif α) (prev : Nat) (first : Bool)
+    (hn : ∀ m ∈ pre, isNext m.2 = true) (hterm : isNext n = false) (hg : GapsOk d prev (pre ++ [(T, n)])) :
+    toSwitchAt (.rel d) false (prev + d) (prev + d) first (pre ++ (T, n) :: post) = none := by
+  induction pre generalizing prev first with
+  | nil =>
+    have hle : ¬ (prev + d < T) := by have := hg.1; omega
+    cases n with
+    | next v => simp [isNext] at hterm
+    | error e => simp [toSwitchAt, timerBefore, hle]
+    | completed => simp [toSwitchAt, timerBefore, hle]
+  | cons a pre ih =>
+    obtain ⟨t, m⟩ := a
+    have hnext := hn (t, m) (List.mem_cons_self ..)
+    cases m with
+    | next v =>
+      have hle : ¬ (prev + d < t) := by have := hg.1; omega
+      have := ih t false (fun m hm => hn m (List.mem_cons_of_mem _ hm)) hg.2
+      simp only [List.cons_append, toSwitchAt, Bool.and_false, timerBefore, Bool.false_eq_true, if_false, hle,
+        decide_false, Due.at]
+      rw [Nat.max_eq_left (Nat.le_add_right t d)]
+      exact this
+    | error e => simp [isNext] at hnext
+    | completed => simp [isNext] at hnext
+
 end Timed
